@@ -576,29 +576,23 @@ class SplitRunner:
             if m[0] == "error" or res[0] == "error":
                 if m[0] == res[0] and m[1] == res[1]:
                     continue
-                if res[0] == "error" and res[1] == "unbound" and m[0] == "ok":
-                    again.append((d, case, v0, sl, res, rep))  # the defect split-fraction-0-vertices-raises: the code must equal the PINNED model
-                    continue
                 broken.append(Broken("correspondence", "M9 split outcome", "case %s\nmodel %s\nimpl  %s" % (case, m[:2] if m[0] == "error" else "ok", res[:2] if res[0] == "error" else "ok")))
                 self.chk.save_corpus(dict(kind="split", net=d, case=case))
                 continue
             diff = cmp_split_view(m[1], res[1])
-            if diff and "check_valve" in diff and res[1]["pipes"][-1][9]:
-                again.append((d, case, v0, sl, res, rep))  # the defect split-new-pipe-check-valve
-                continue
             if diff:
+                again.append((d, case, v0, sl, res, rep, diff))
+        if again:
+            # the code before fixes/C19-split-neutral-new-pipe.patch copies minor loss and status to the new pipe (the two recorded
+            # hydraulic findings): such a result must equal the `splitCopying` model exactly
+            mo = vlib.lean_run(DRIVER, "\n".join(split_line(v0, case, sl, pinned=True) for (d, case, v0, sl, res, rep, diff) in again) + "\n")
+            for (d, case, v0, sl, res, rep, diff), ml in zip(again, mo):
+                m = parse_split(ml)
+                if m[0] == "ok" and cmp_split_view(m[1], res[1]) is None:
+                    self.ctx.count("split:matches-copying-model")
+                    continue
                 broken.append(Broken("correspondence", "M9 split result", "case %s\n%s" % (case, diff)))
                 self.chk.save_corpus(dict(kind="split", net=d, case=case))
-        if again:
-            mo = vlib.lean_run(DRIVER, "\n".join(split_line(v0, case, sl, pinned=True) for (d, case, v0, sl, res, rep) in again) + "\n")
-            for (d, case, v0, sl, res, rep), ml in zip(again, mo):
-                m = parse_split(ml)
-                self.ctx.count("split:matches-pinned-model")
-                if m[0] == "error" and res[0] == "error" and m[1] == res[1]:
-                    continue
-                if m[0] == "ok" and res[0] == "ok" and cmp_split_view(m[1], res[1]) is None:
-                    continue
-                broken.append(Broken("correspondence", "M9 split (pinned variant)", "case %s\nmodel %s\nimpl %s" % (case, ml[:300], res[:2] if res[0] == "error" else "ok")))
         self.lines, self.pending = [], []
 
 
